@@ -63,40 +63,53 @@ Definition redundant_op (o : op) : bool :=
 Definition disjoint_b (a b : list reg) : bool := forallb (fun x => negb (memb x b)) a.
 
 (* the forward guard: none of the def-const registers of the candidate is read before being set
-   again in the straight-line code that follows (labels fall through, any other control-flow op
-   ends the scan: keep unless nothing is pending) *)
-Fixpoint flags_guard (pending : list reg) (rest : list op) : bool :=
+   again by the code that follows: walk forward from index i, falling through labels and other
+   organisational ops, following unconditional jumps; a return or the end of the ops ends the walk
+   well, any other control flow (and an exhausted step budget) keeps the op *)
+Fixpoint flags_guard (fuel : nat) (ops : list op) (pending : list reg) (i : nat) : bool :=
   match pending with
   | [] => true
   | _ =>
-    match rest with
-    | [] => true
-    | n :: t =>
-        if negb (disjoint_b pending (uses n)) then false
-        else
-          let pending' := filter (fun r => negb (memb r (cdefs n ++ defs n))) pending in
-          match kind n with
-          | KMove _ _ | KNoop | KLabel _ => flags_guard pending' t
-          | KOther opc _ => if is_org_stop opc then nil_b pending' else flags_guard pending' t
-          | _ => nil_b pending'
-          end
+    match fuel with
+    | O => false
+    | S f =>
+      match nth_error ops i with
+      | None => true
+      | Some n =>
+          if negb (disjoint_b pending (uses n)) then false
+          else
+            let pending' := filter (fun r => negb (memb r (cdefs n ++ defs n))) pending in
+            match kind n with
+            | KRet => true
+            | KJump l => match label_index ops l with
+                         | Some j => flags_guard f ops pending' j
+                         | None => nil_b pending'
+                         end
+            | KJnz _ _ | KCall _ | KJmpAddr _ => nil_b pending'
+            | _ => flags_guard f ops pending' (S i)
+            end
+      end
     end
   end.
 
-Definition rro_drop (o : op) (t : list op) : bool := andb (redundant_op o) (flags_guard (cdefs o) t).
+(* [all] is the whole op list, [i] the index of o in it *)
+Definition rro_drop (all : list op) (i : nat) (o : op) : bool :=
+  andb (redundant_op o) (flags_guard (length all) all (cdefs o) (S i)).
 
-Fixpoint remove_redundant_ops (ops : list op) : list op :=
-  match ops with
+Fixpoint rro_aux (all : list op) (i : nat) (l : list op) : list op :=
+  match l with
   | [] => []
-  | o :: t => if rro_drop o t then remove_redundant_ops t else o :: remove_redundant_ops t
+  | o :: t => if rro_drop all i o then rro_aux all (S i) t else o :: rro_aux all (S i) t
   end.
+Definition remove_redundant_ops (ops : list op) : list op := rro_aux ops 0 ops.
 
 (* the positions remove_redundant_ops keeps *)
-Fixpoint redundant_keep (ops : list op) : list bool :=
-  match ops with
+Fixpoint rro_keep_aux (all : list op) (i : nat) (l : list op) : list bool :=
+  match l with
   | [] => []
-  | o :: t => negb (rro_drop o t) :: redundant_keep t
+  | o :: t => negb (rro_drop all i o) :: rro_keep_aux all (S i) t
   end.
+Definition redundant_keep (ops : list op) : list bool := rro_keep_aux ops 0 ops.
 
 (* ---- dce ---- *)
 Definition has_jmpaddr (ops : list op) : bool :=
